@@ -622,3 +622,48 @@ Proof.
         -- apply FA.
       * apply I2_skip; try assumption. apply FA.
 Qed.
+
+Lemma p2_loop_inv p L suf : forall pre st,
+  p = pre ++ suf -> typed p = true -> P1ok p L -> I2 (bindings p) pre st ->
+  match p2_loop L st suf with
+  | AOk st' => I2 (bindings p) p st'
+  | AErr k sp => violated p k = true
+  | APanic => False
+  end.
+Proof.
+  induction suf as [|s suf IH]; intros pre st EP T OK HI; cbn [p2_loop].
+  - rewrite app_nil_r in EP. subst pre. exact HI.
+  - pose proof (p2_step_inv p L pre s suf st EP T OK HI) as S.
+    destruct (p2_step L st s) as [st1|k sp|]; cbn [abind]; try exact S.
+    apply (IH (pre ++ [s]) st1); try assumption. rewrite <- app_assoc. exact EP.
+Qed.
+
+Lemma I2_init bs : I2 bs [] (mkP2 [] None).
+Proof.
+  constructor.
+  - exact Logic.I.
+  - split; [constructor|]. split; intros; contradiction.
+  - apply Permutation_refl.
+  - reflexivity.
+  - reflexivity.
+  - reflexivity.
+  - reflexivity.
+  - intros k b [].
+Qed.
+
+(* what a successful pass 2 establishes *)
+Lemma pass2_spec p L rel dbg debug : typed p = true -> P1ok p L ->
+  match pass2 p (mkSymtab L rel dbg) debug with
+  | AOk o => exists st, I2 (bindings p) p st /\ p2_cur st = None /\
+                        o_blocks o = map (fun kb => (fst kb, ob_words (snd kb))) (p2_map st)
+  | AErr k sp => violated p k = true
+  | APanic => False
+  end.
+Proof.
+  intros T OK. unfold pass2. cbn [st_labels].
+  pose proof (p2_loop_inv p L p [] (mkP2 [] None) eq_refl T OK (I2_init _)) as S.
+  destruct (p2_loop L (mkP2 [] None) p) as [st|k sp|]; cbn [abind]; try exact S.
+  exists st. split; [exact S|]. split; [|reflexivity].
+  pose proof (i2_cur _ _ _ S) as CU. unfold cur2_rel in CU. rewrite (ok_closed _ _ OK) in CU.
+  destruct (p2_cur st) as [[lc blk]|]; [contradiction|reflexivity].
+Qed.
